@@ -104,7 +104,7 @@ func vfBASample(sim *vfSim, w *vfWork, b *vfBAState, final bool) {
 	b.advance(sim)
 	var sumStreams [2]int64
 	inProgress := [2]int64{}
-	for _, run := range w.runs {
+	for _, run := range w.allRuns() {
 		run.mu.Lock()
 		ws := run.wStream
 		var accepted int64
@@ -178,7 +178,7 @@ func vfBASample(sim *vfSim, w *vfWork, b *vfBAState, final bool) {
 		}
 		detached := int64(0)
 		a.lock.RUnlock()
-		for _, run := range w.runs {
+		for _, run := range w.allRuns() {
 			run.mu.Lock()
 			ws := run.wStream
 			run.mu.Unlock()
@@ -251,7 +251,7 @@ func vfRunBA(t *testing.T, spec *vfSpec, res *vfRes) {
 			defer close(samplerDone)
 			installed := map[*vfStreamRun]bool{}
 			for {
-				for _, run := range w.runs {
+				for _, run := range w.allRuns() {
 					run.mu.Lock()
 					ws := run.wStream
 					run.mu.Unlock()
